@@ -56,6 +56,8 @@ pub struct RandomDir {
     pub queue: std::collections::VecDeque<Value>,
     /// armed by a scenario: the destructor callback after this many others panics
     pub arm_drop: Option<u32>,
+    /// planted by a scenario: operations that the callbacks of one object perform first (key "<kind>:<id>")
+    pub cb_plan: std::collections::HashMap<String, std::collections::VecDeque<Value>>,
 }
 
 /// Plain script: callbacks do nothing, except that the k-th callback of a kind
@@ -223,6 +225,12 @@ pub fn next_in_cb<P: Pad>(kind: CbKind, o: u32) -> Decision {
 
 fn random_in_cb<P: Pad>(kind: CbKind, o: u32) -> Decision {
     let panicking = std::thread::panicking();
+    let planted = with_random(|r| r.cb_plan.get_mut(&format!("{}:{}", kind.name(), o)).and_then(|q| q.pop_front())).flatten();
+    if let Some(op) = planted {
+        if world::valid::<P>(&op) {
+            return Decision::Do(op);
+        }
+    }
     let act = with_random(|r| {
         if kind == CbKind::Drop && !panicking {
             match r.arm_drop {
@@ -500,7 +508,7 @@ pub fn gen_top_op<P: Pad>(r: &mut RandomDir, w: &mut World<P>) -> Option<Value> 
 }
 
 pub fn new_random(seed: u64, cfg: RandomCfg) -> Dir {
-    Dir::Random(Box::new(RandomDir { rng: StdRng::seed_from_u64(seed), cfg, faults: 0, cb_budget: 0, queue: Default::default(), arm_drop: None }))
+    Dir::Random(Box::new(RandomDir { rng: StdRng::seed_from_u64(seed), cfg, faults: 0, cb_budget: 0, queue: Default::default(), arm_drop: None, cb_plan: Default::default() }))
 }
 
 /// After a caught panic: poke the objects the program still holds in the way that exposes stale collector
@@ -571,6 +579,11 @@ pub fn gen_scenario<P: Pad>(r: &mut RandomDir, w: &mut World<P>) {
     q.push_back(json!({"e": "call", "op": "drop", "o": if first { a } else { b }}));
     q.push_back(json!({"e": "call", "op": "drop", "o": if first { b } else { a }}));
     q.push_back(json!({"e": "call", "op": "collect"}));
+    // the helper looks at the observed member from its finalizer and from its destructor (both run inside the
+    // destructor phase of the collection, nested in a plain reference-count drop)
+    for kind in ["finalize", "drop"] {
+        r.cb_plan.entry(format!("{}:{}", kind, h)).or_default().push_back(json!({"e": "call", "op": "upgradef", "a": h, "k": "w", "i": 1}));
+    }
 }
 
 /// A small dense garbage graph: k objects, every traced field pointing to a random member (shared nodes, several
